@@ -80,7 +80,7 @@ def main(argv):
             checks = meta.setdefault('checks', {})
             for pr in props:
                 t0 = time.time()
-                env = {**os.environ, 'VERIF_REPO': repo}
+                env = {**os.environ, 'VERIF_REPO': repo, 'VERIF_EVIDENCE_DIR': os.path.join(repo, '_evidence')}
                 p = sh([os.path.join(HERE, 'check'), pr, tier], cwd=HERE, env=env)
                 verdict = {0: 'missed', 1: 'caught', 2: 'harness-error'}.get(p.returncode, str(p.returncode))
                 lines = [l for l in p.stdout.splitlines() if l.startswith(('VIOLATION', '  oracle=', 'HARNESS', 'OK'))]
